@@ -26,12 +26,19 @@ ASAN_ENV = {"ASAN_OPTIONS": vlib.Ctx.SAN_ENV["ASAN_OPTIONS"] + ":max_allocation_
 
 
 # ------------------------------------------------------------------ running
-def run_cases(ctx, exe, cases, nchunks=4, timeout=900, env=None):
+def run_guarded(ctx, exe, stdin, tmo, env=None):
+    """run under coreutils timeout (SIGKILL) so that the output printed before a hang is kept"""
+    rc, out, err = ctx.run_exe("timeout", ["-s", "KILL", str(tmo), exe], stdin=stdin, timeout=tmo + 30, env=env)
+    return rc, out, err, rc in (137, -9, 124)
+
+
+def run_cases(ctx, exe, cases, nchunks=4, timeout=None, env=None):
     """Run case lines through an executable in parallel chunks.  Returns (lines, crashes);
-    a case on which the executable died gets the line '<crash rc=..>' and is listed in crashes."""
+    a case on which the executable died or hung gets the line '<crash rc=..>' and is listed in crashes."""
     n = len(cases)
     if n == 0:
         return [], []
+    timeout = timeout or ctx.pick(90, 900)
     size = max(1, (n + nchunks - 1) // nchunks)
     chunks = [(s, cases[s:s + size]) for s in range(0, n, size)]
 
@@ -40,17 +47,17 @@ def run_cases(ctx, exe, cases, nchunks=4, timeout=900, env=None):
         lines, crashes = [], []
         pos = 0
         while pos < len(cs):
-            rc, out, err = ctx.run_exe(exe, [], stdin="\n".join(cs[pos:]) + "\n", timeout=timeout, env=env)
+            rc, out, err, hung = run_guarded(ctx, exe, "\n".join(cs[pos:]) + "\n", timeout, env)
             got = out.split("\n")
-            got = got[:-1] if out.endswith("\n") else got
+            got = got[:-1] if out.endswith("\n") else got[:-1]      # an unterminated last line is incomplete
             got = got[:len(cs) - pos]
             lines += got
             pos += len(got)
-            if pos < len(cs):          # died on case pos
-                crashes.append((start + pos, rc, err[-2500:]))
+            if pos < len(cs):          # died / hung on case pos
+                crashes.append((start + pos, "timeout (hang)" if hung else rc, err[-2500:]))
                 lines.append("<crash rc=%s>" % rc)
                 pos += 1
-                if len(crashes) > 5:
+                if hung or len(crashes) > 5:
                     lines += ["<not run>"] * (len(cs) - pos)
                     break
         return lines, crashes
@@ -79,11 +86,27 @@ def l_op(l, f):
     return l
 
 
+FLAG_MEANING = {
+    "MISALIGNED": "a returned pointer / data() must be a multiple of the requested alignment (64 for AlignedVector)",
+    "ISALIGNED": "isAligned() must agree with pointer % alignment == 0",
+    "NONNULL-EMPTY": "a vector without capacity must have null data()",
+    "TWIN": "AlignedVector contents must equal the std::vector twin after every operation",
+    "PATTERN": "the bytes of a live block changed while other blocks were allocated/freed",
+    "BACKEND-CALLED": "length_error must be thrown before the allocator is called",
+    "CALLS": "allocate() must call the allocator exactly once",
+    "BADFREE": "deallocate must free exactly the pointers allocate returned, once",
+    "LEAK": "every block must be released when the vectors are destroyed",
+    "OPERAND-TYPE": "ALIGN_PTR must not depend on the operand types (int / size_t / pointer)",
+}
+
+
 def oracle(case, line, exact):
     """Does the implementation's own output satisfy property C14 on this case?
     exact: spy build (model addresses, requests visible).  Returns None if fine, else a string."""
     t = case.split()
-    if "!" in line: return "harness flag: " + line[line.index("!"):][:80]
+    if "!" in line:
+        flag = re.match(r"!([A-Z-]+)", line[line.index("!"):]).group(1)
+        return "%s (harness flag !%s)" % (FLAG_MEANING.get(flag, "property check inside the harness failed"), flag)
     if line.startswith("<crash"): return "crash " + line
     k = t[0]
     if k == "M":
@@ -142,6 +165,7 @@ def oracle(case, line, exact):
         return None if got == want else "live blocks / their first and last bytes differ from what was allocated and written"
     if k == "V":
         ops = t[3:]
+        if not ops: return None if line == "" else "malformed"
         outs = line.split(" ; ")
         if len(outs) != len(ops): return "malformed"
         la, lb = [], []
@@ -385,11 +409,12 @@ def run(ctx):
             small = case
             if case[0] in "HV":
                 head = case.split()[:3 if case[0] == "V" else 2]
-                def dies(ops, head=head, exe=exe):
-                    rc2, out, err2 = ctx.run_exe(exe, [], stdin=" ".join(head + ops) + "\n", timeout=120)
+                hang = isinstance(rc, str)
+                def dies(ops, head=head, exe=exe, hang=hang):
+                    rc2, out, err2, h2 = run_guarded(ctx, exe, " ".join(head + ops) + "\n", 5 if hang else 60)
                     return rc2 != 0
-                small = " ".join(head + vlib.shrink_list(case.split()[len(head):], dies, max_rounds=120))
-            ctx.violation("harness on the %s died (rc=%s): sanitizer report / abort in the real code" % (label, rc),
+                small = " ".join(head + vlib.shrink_list(case.split()[len(head):], dies, max_rounds=20 if hang else 120))
+            ctx.violation("harness on the %s died or hung (rc=%s): sanitizer report / abort / allocator corruption in the real code" % (label, rc),
                           {"build": label, "case": small, "original_case": case, "stderr_tail": err,
                            "required": "no crash, no sanitizer report; aligned usable memory, intact neighbours"})
         seen_kind = set()
@@ -412,11 +437,11 @@ def run(ctx):
                     head = c.split()[:3 if c[0] == "V" else 2]
                     def fails(ops, head=head, exe=exe, exact=exact):
                         cc = " ".join(head + ops)
-                        rc2, out, err2 = ctx.run_exe(exe, [], stdin=cc + "\n", timeout=120)
+                        rc2, out, err2, h2 = run_guarded(ctx, exe, cc + "\n", 30)
                         return rc2 != 0 or oracle(cc, out.strip("\n"), exact) is not None
                     ops = vlib.shrink_list(c.split()[len(head):], fails, max_rounds=150)
                     small = " ".join(head + ops)
-                    rc2, out, err2 = ctx.run_exe(exe, [], stdin=small + "\n", timeout=120)
+                    rc2, out, err2, h2 = run_guarded(ctx, exe, small + "\n", 30)
                     sl = out.strip("\n")
                     sv = oracle(small, sl, exact) or verdict
                 ctx.violation("%s: %s" % (label, sv),
